@@ -602,6 +602,10 @@ func (tc *tcase) materialise() string {
 
 const cleanMarker = "CLEANTASKRAN"
 
+// viaLink: an ambient variable of this name tells the harness to start spok with a working directory (and $PWD) that
+// leads into the sandbox through a symbolic link lying outside it
+const viaLink = "VHVIALINK"
+
 func workC12(tc *tcase) string {
 	root := tc.materialise()
 	if root == "" {
@@ -609,7 +613,18 @@ func workC12(tc *tcase) string {
 	}
 	defer os.RemoveAll(root)
 	before, cache0 := snapshot(root)
-	res := runSpok(root, filepath.Join(root, tc.cwd), tc.environ(root), "--clean")
+	cwd, env := filepath.Join(root, tc.cwd), tc.environ(root)
+	for _, p := range tc.amb {
+		if p[0] == viaLink {
+			link := root + "-via"
+			if os.Symlink(root, link) == nil {
+				defer os.Remove(link)
+				cwd = filepath.Join(link, tc.cwd)
+				env = append(env, "PWD="+cwd)
+			}
+		}
+	}
+	res := runSpok(root, cwd, env, "--clean")
 	after, cache1 := snapshot(root)
 	errc := "none"
 	switch {
@@ -1593,12 +1608,22 @@ func genMain(w *bufio.Writer, a map[string]string) {
 		for _, tc := range c12Singles() {
 			fmt.Fprintln(w, tc.encode())
 		}
+		// … and once more with the project ENTERED THROUGH A SYMBOLIC LINK (the shell's logical working directory, $PWD):
+		// what may be removed does not depend on the spelling of the way in
+		for _, tc := range c12Singles() {
+			tc.amb = append(tc.amb, [2]string{viaLink, "1"})
+			fmt.Fprintln(w, tc.encode())
+		}
 		n := 760
 		if thorough {
 			n = 40000
 		}
 		for i := 0; i < n; i++ {
-			fmt.Fprintln(w, g.c12Random().encode())
+			tc := g.c12Random()
+			if i%4 == 3 {
+				tc.amb = append(tc.amb, [2]string{viaLink, "1"})
+			}
+			fmt.Fprintln(w, tc.encode())
 		}
 	case "C05", "C19":
 		// the env engine as an extra engine: `--clean` on the real binary is where output GLOBS are expanded (C05: the
@@ -1619,6 +1644,9 @@ func genMain(w *bufio.Writer, a map[string]string) {
 				continue
 			}
 			i++
+			if i%4 == 3 {
+				tc.amb = append(tc.amb, [2]string{viaLink, "1"})
+			}
 			fmt.Fprintln(w, tc.encode())
 		}
 	case "C20":
